@@ -12,3 +12,4 @@ import BnpVerif.Props.C06
 #print axioms C06.retarget_sound
 #print axioms C06.retargetOld_unsound
 #print axioms C06.change_encoding_sound
+#print axioms C06.retargetFull_sound
